@@ -108,6 +108,18 @@ def value_of(t, name):
     return {"k": "other"}
 
 
+def to_value(v):
+    if v is None:
+        return NONE
+    if isinstance(v, bool):
+        return {"k": "other"}
+    if isinstance(v, int):
+        return iv(v)
+    if isinstance(v, str) and all(c in "ab" for c in v):
+        return sv([1 if c == "a" else 2 for c in v])
+    return {"k": "other"}
+
+
 def project(w, objs):
     num = {id(o): i + 1 for i, o in enumerate(objs)}
     g = lambda x: num.get(id(x), 0)
@@ -188,7 +200,7 @@ def kwargs_of(filters):
 def gen_event(rng, eid, kind=None):
     n = rng.choice([1, 2, 3, 3, 4, 4, 5])
     W = gen_world(rng, n)
-    kind = kind or rng.choice(["select"] * 5 + ["bulkset", "removeall", "removeall"])
+    kind = kind or rng.choice(["select"] * 10 + ["bulkset", "removeall", "removeall"] * 2 + ["order", "column", "index"])
     if kind == "removeall":
         l = rng.choice([{"kind": "roots", "t": 0}, {"kind": "wbs", "t": 0},
                         {"kind": "children", "t": rng.randint(1, n)}, {"kind": "preds", "t": rng.randint(1, n)},
@@ -209,6 +221,13 @@ def gen_event(rng, eid, kind=None):
             fs = []
         qry = {"callable": "", "filters": fs}
     ev = {"id": eid, "kind": kind, "W": W, "list": l, "qry": qry, "attr": "tag", "value": NONE}
+    # the list protocol beside queries (outside C18: differences are reported as drift, never as violations)
+    if kind == "order":
+        ev["key"], ev["rev"] = rng.choice(["prio", "id"]), rng.random() < 0.5
+    elif kind == "column":
+        ev["attr"] = rng.choice(["prio", "tag", "name", "zz"])
+    elif kind == "index":
+        ev["probe"] = rng.randint(1, n)
     if kind == "bulkset":
         ev["attr"] = rng.choice(["tag", "prio", "name"])
         ev["value"] = iv(rng.randint(5, 7)) if ev["attr"] == "prio" else rng.choice([NONE, sv([2, 2, 1])])
@@ -235,6 +254,18 @@ def execute(ev):
         elif ev["kind"] == "bulkset":
             res = call(lst)
             setattr(res, ev["attr"], py(ev["value"]))
+        elif ev["kind"] == "order":
+            ev["ret"] = [num.get(id(t), 0) for t in lst.order_by(ev["key"], reverse=ev["rev"])]
+        elif ev["kind"] == "column":
+            ev["col"] = [to_value(v) for v in getattr(lst, ev["attr"])]
+            ev["ret"] = [num.get(id(t), 0) for t in lst]
+            ev["len"] = len(lst)
+        elif ev["kind"] == "index":
+            ev["found"] = True
+            try:
+                ev["ret"] = [lst.index(objs[ev["probe"] - 1])]
+            except (ValueError, RuntimeError):
+                ev["found"] = False
         else:
             res = call(lst.remove_all)
             ev["ret"] = [num.get(id(t), 0) for t in res]
@@ -261,8 +292,12 @@ def run(tier, seed, log):
     j = tlc.judge_batches("QueryTrace", {}, [events[i:i + per] for i in range(0, len(events), per)], "qry", jobs=jobs)
     fails = []
     seen = set()
+    proto = {}
     for t in j["fails_full"]:
         e = events[t[1]]
+        if str(t[2]).startswith("PROTO."):
+            proto[t[2]] = proto.get(t[2], 0) + 1
+            continue
         if (t[1], t[2]) in seen:
             continue
         seen.add((t[1], t[2]))
@@ -276,7 +311,9 @@ def run(tier, seed, log):
             opsseen[f["op"]] = opsseen.get(f["op"], 0) + 1
     nontriv = sum(1 for e in events if 0 < len(e["ret"]) or e["kind"] != "select")
     cov = {"events": len(events), "nontrivial": nontriv, "judge_states": j["states"], "ops": opsseen,
-           "kinds": {k: sum(1 for e in events if e["kind"] == k) for k in ("select", "bulkset", "removeall")},
+           "kinds": {k: sum(1 for e in events if e["kind"] == k)
+                     for k in ("select", "bulkset", "removeall", "order", "column", "index")},
+           "list_protocol_drift": proto,
            "samples": [{k: e[k] for k in ("kind", "W", "list", "qry", "ret", "out")} for e in events[10:12]]}
     return {"engine": "query", "tier": tier, "seed": seed, "wall_s": time.time() - t0, "fails": fails, "coverage": cov}
 
@@ -294,6 +331,10 @@ def evidence(prop, res):
         "states": cov["judge_states"], "transitions": cov["judge_states"],
         "traces_validated_against_impl": cov["events"], "evaluations": cov["events"],
         "distinct_nontrivial": cov["nontrivial"],
+        "list_protocol": {"calls": {k: cov["kinds"].get(k, 0) for k in ("order", "column", "index")},
+                          "drift": cov.get("list_protocol_drift", {}),
+                          "note": "order_by / attribute columns / index replayed against Query.tla; outside C18, "
+                                  "differences are drift, not violations"},
         "rule": "seeded worlds (one WBS, 1-5 tasks, attributes present / absent / None) x every list of the API x "
                 "single filters over all twelve suffixes and plain equality for int, string and missing attributes, "
                 "pairs of filters, callables; select / bulk assignment / remove_all; non-trivial = non-empty "
